@@ -8,3 +8,6 @@ func VSetSender(tx *Transaction, addr common.Address) { tx.from.Store(addr) }
 
 // VSetHash primes the hash cache of a transaction.
 func VSetHash(tx *Transaction, h common.Hash) { tx.hash.Store(h) }
+
+// VSetHash128 primes the short-hash cache of a transaction.
+func VSetHash128(tx *Transaction, h common.Hash128) { tx.hash128.Store(h) }
